@@ -2,6 +2,7 @@
 codec state from the ATTRIBUTES of real optiland objects, rendering to Coq (Model/M_C19_Run.v), the
 property oracle on the implementation, and classification of violations by call site."""
 import copy
+import random
 import json
 import math
 import sys
@@ -118,7 +119,90 @@ def gen_recipe(rng, i):
             a, b = rng.sample(range(1, n + 1), 2)
             edits.append(['pickup', a, 'radius', b, -1.0, 0.0])
             edits.append(['set_radius', rng.uniform(30, 200), a])
+    if i % 4 == 1:
+        # values spanning many decades; own random stream, so the recipes of the other classes do not move
+        spread_decades(spec, ex, random.Random(1000003 * i + 17))
     return {'spec': spec, 'extras': ex, 'edits': edits}
+
+
+def _mant(r):
+    return r.uniform(1.0, 9.9) * r.choice([-1, 1])
+
+
+def spread_decades(spec, ex, r):
+    """rewrite prescription values so that legitimate entries range from 1e-22 to 1e+6: high-order aspheric /
+    polynomial / Chebyshev coefficients (r^10 and up in mm are 1e-16 ... 1e-22), arc-second-of-arc-second tilts and
+    decentres, weak absorption, faint coatings, a very long radius"""
+    ex['decades'] = True
+    surfs = spec['surfaces']
+    for s in surfs:
+        t = s.get('type', 'standard')
+        if t == 'even_asphere':
+            s['coefficients'] = [0.0] + [_mant(r) * 10.0 ** (-6 - 4 * j - r.choice([0, 1])) for j in range(r.choice([4, 5, 6]))]
+        elif t in ('polynomial', 'chebyshev'):
+            s['coefficients'] = [[(_mant(r) * 10.0 ** (-3 - 5 * (a + b))) if a + b > 0 else 0.0
+                                  for b in range(len(row))] for a, row in enumerate(s['coefficients'])]
+        if r.random() < 0.5:
+            s['dx'], s['dy'] = _mant(r) * 1e-17, _mant(r) * 1e-19
+            s['rx'], s['ry'] = _mant(r) * 1e-18, s.get('ry', 0.0)
+        m = s.get('material')
+        if isinstance(m, list) and m[0] == 'ideal' and r.random() < 0.6:
+            m[2] = abs(_mant(r)) * 10.0 ** r.choice([-16, -19, -22])
+        if s.get('coating') and r.random() < 0.7:
+            s['coating'][1] = abs(_mant(r)) * 1e-17
+        if s.get('aperture') and r.random() < 0.7:
+            s['aperture'][1] = abs(_mant(r)) * 1e-20
+    if not any(s.get('type', 'standard') != 'standard' for s in surfs):
+        # make sure there is at least one surface with a long coefficient list
+        s = surfs[r.randrange(len(surfs))]
+        if math.isfinite(s.get('radius', math.inf)):
+            s['type'] = 'even_asphere'
+            s.setdefault('conic', 0.0)
+            s['coefficients'] = [0.0] + [_mant(r) * 10.0 ** (-6 - 4 * j) for j in range(6)]
+    k = r.randrange(len(surfs))
+    if surfs[k].get('type', 'standard') == 'standard' and math.isfinite(surfs[k].get('radius', math.inf)):
+        surfs[k]['radius'] = _mant(r) * 1e5
+    for f in spec['fields'][1:]:
+        f[2], f[3] = abs(_mant(r)) * 1e-17, abs(_mant(r)) * 1e-16
+
+
+def corpus():
+    """fixed recipes (independent of every random stream) for the input classes that caught something once"""
+    INF = math.inf
+    air = 'air'
+
+    def base(surfs, waves=None, fields=None, obj=INF, ap=None, ft='angle'):
+        return {'object_thickness': obj, 'surfaces': surfs, 'aperture': ap or ['EPD', 10.0], 'field_type': ft,
+                'fields': fields or [[0.0, 0.0, 0.0, 0.0], [2.0, 0.0, 0.0, 0.0]],
+                'wavelengths': waves or [[0.4861, False], [0.5876, True], [0.6563, False]], 'telecentric': False}
+    asph = {'type': 'even_asphere', 'thickness': 6.0, 'is_stop': True, 'radius': 62.0, 'conic': -0.6,
+            'coefficients': [0.0, -1.7e-06, 2.9e-10, -5.3e-14, 7.7e-17, -3.1e-19, 2.3e-22],
+            'material': ['ideal', 1.5168, 3.0e-19]}
+    flat = {'type': 'standard', 'thickness': 70.0, 'is_stop': False, 'radius': INF, 'material': air}
+    poly = {'type': 'polynomial', 'thickness': 4.0, 'is_stop': True, 'radius': 2.5e5, 'conic': 0.0,
+            'coefficients': [[0.0, 1.0e-4, -3.0e-9], [2.0e-4, 5.0e-13, 8.0e-17], [-6.0e-9, 4.0e-18, -9.0e-22]],
+            'material': ['ideal', 1.62, 0.0], 'dx': 4.0e-17, 'dy': -2.0e-19, 'rx': 3.0e-18, 'ry': 0.0}
+    cheb = {'type': 'chebyshev', 'thickness': 60.0, 'is_stop': False, 'radius': -90.0, 'conic': 0.0,
+            'coefficients': [[0.0, 2.0e-3], [-1.0e-3, 6.0e-16], [7.0e-20, -5.0e-22]], 'norm_x': 40.0, 'norm_y': 40.0,
+            'material': air, 'coating': [0.97, 4.0e-17], 'aperture': [9.0, 6.0e-21]}
+    sph1 = {'type': 'standard', 'thickness': 5.0, 'is_stop': True, 'radius': 60.0, 'material': ['glass', 'N-BK7', 'schott']}
+    sph2 = {'type': 'standard', 'thickness': 2.0, 'is_stop': False, 'radius': -45.0, 'material': ['glass', 'SF6', 'schott']}
+    sph3 = {'type': 'standard', 'thickness': 80.0, 'is_stop': False, 'radius': -120.0, 'conic': -1.0, 'material': air}
+    return [
+        {'spec': base([asph, flat]), 'extras': {'corpus': 'asphere-decades'}, 'edits': []},
+        {'spec': base([poly, cheb], fields=[[0.0, 0.0, 0.0, 0.0], [1.5, 0.0, 3.0e-17, 2.0e-16]]),
+         'extras': {'corpus': 'freeform-decades'}, 'edits': [['pickup', 1, 'radius', 2, -1.0e-3, 5.0e-18]]},
+        {'spec': base([sph1, sph2, sph3]), 'extras': {'corpus': 'doublet-remove-surface', 'wave_unit': 'nm'},
+         'edits': [['remove_surface', 2]]},
+        {'spec': base([sph1, sph2, sph3], obj=250.0, ft='object_height'),
+         'extras': {'corpus': 'doublet-insert-and-edit'},
+         'edits': [['add_surface', 2, 75.0, 1.5, ['ideal', 1.7, 2.0e-16]], ['set_thickness', 3.0, 1], ['set_conic', -0.8, 1],
+                   ['set_radius', INF, 1], ['scale', 1.0e-3], ['pickup', 3, 'conic', 4, 1.0, 0.0], ['solve', 5, 0.0]]},
+        {'spec': base([asph, sph3]), 'extras': {'corpus': 'fresnel-polarized', 'fresnel': True,
+                                                'polarization': [True, 0.6, 0.8, 0.0, 1.0e-17]}, 'edits': [['image_solve']]},
+        {'spec': base([sph1, flat]), 'extras': {'corpus': 'image-class-no-aperture', 'image_class': True, 'no_aperture': True,
+                                                'bsdf': [[2, ['gauss', 3.0e-16]]]}, 'edits': []},
+    ]
 
 
 def apply_op(o, op):
@@ -615,12 +699,29 @@ def oracle(o, origin=None):
         if site:
             v.append({'stage': 'json.dumps', 'site': site, 'detail': f'{type(e).__name__}: {e}'[:160], 'offenders': off[:4]})
     # reload: through the file format when it could be written, and always through the dictionary itself
-    for how in ('file', 'dict'):
-        if how == 'file' and text is None:
-            continue
-        src = json.loads(text) if how == 'file' else d
+    fpath = None
+    if text is not None:
+        # the FILE path goes through the implementation's own writer and reader (fileio.optiland_handler); what
+        # the writer put into the file must be the dictionary, value for value
+        from optiland.fileio.optiland_handler import save_optiland_file, load_optiland_file
+        fpath = _tmpfile()
         try:
-            o2 = Optic.from_dict(src)
+            save_optiland_file(o, fpath)
+            with open(fpath) as fh:
+                written = json.load(fh)
+            if canon_dict(written) != canon_dict(json.loads(text)):
+                v.append({'stage': 'file-content', 'site': 'file-content-differs',
+                          'detail': first_diff(canon_dict(json.loads(text)), canon_dict(written), 'dict')})
+        except Exception as e:   # noqa
+            v.append({'stage': 'save_optiland_file', 'site': 'save-raises', 'detail': f'{type(e).__name__}: {e}'[:160]})
+            fpath = None
+        v.extend(sub_object_files(o))
+    for how in ('file', 'dict'):
+        if how == 'file' and fpath is None:
+            continue
+        src = None if how == 'file' else d
+        try:
+            o2 = load_optiland_file(fpath) if how == 'file' else Optic.from_dict(src)
             if how == 'dict':
                 # from_dict must not modify its argument, and a second load of the same dictionary gives the same lens
                 if canon_dict(d) != canon_dict(snapshot):
@@ -663,7 +764,7 @@ def oracle(o, origin=None):
         # dictionary fix-point
         try:
             d2 = o2.to_dict()
-            same = (json.dumps(d2) == text) if how == 'file' else (canon(extract(Optic.from_dict(d2))[0]) == canon(st0))
+            same = (canon_dict(json.loads(json.dumps(d2))) == canon_dict(json.loads(text))) if how == 'file' else (canon(extract(Optic.from_dict(d2))[0]) == canon(st0))
             if not same:
                 v.append({'stage': f'fixpoint({how})', 'site': 'dict-not-fixpoint', 'detail': ''})
         except Exception as e:   # noqa
@@ -703,6 +804,54 @@ def oracle(o, origin=None):
                     v.append({'stage': 'independence(dict)', 'site': 'aliasing', 'detail': 'behaviour of the original changed'})
             except Exception as e:   # noqa
                 v.append({'stage': 'independence(dict)', 'site': 'aliasing', 'detail': f'{type(e).__name__}: {e}'[:120]})
+    return v
+
+
+_TMP_N = [0]
+
+
+def _tmpfile():
+    import os
+    d = os.path.join(vlib.BUILD, 'tmp')
+    os.makedirs(d, exist_ok=True)
+    _TMP_N[0] += 1
+    return os.path.join(d, f'c19_{os.getpid()}_{_TMP_N[0] % 4}.json')
+
+
+def sub_object_files(o):
+    """save_obj_to_json / load_obj_from_json on the parts of the lens the handler documents (geometries, materials,
+    coatings, aperture, field and wavelength groups): the reloaded part has the same dictionary"""
+    from optiland.fileio.optiland_handler import save_obj_to_json, load_obj_from_json
+    from optiland.geometries import BaseGeometry
+    from optiland.materials import BaseMaterial
+    from optiland.coatings import BaseCoating
+    from optiland.aperture import Aperture
+    from optiland.fields import FieldGroup
+    from optiland.wavelength import WavelengthGroup
+    v = []
+    parts = []
+    for i, s in enumerate(o.surface_group.surfaces):
+        parts.append((f'surfaces[{i}].geometry', BaseGeometry, s.geometry))
+        parts.append((f'surfaces[{i}].material_post', BaseMaterial, s.material_post))
+        if s.coating is not None:
+            parts.append((f'surfaces[{i}].coating', BaseCoating, s.coating))
+    if o.aperture is not None:
+        parts.append(('aperture', Aperture, o.aperture))
+    parts += [('fields', FieldGroup, o.fields), ('wavelengths', WavelengthGroup, o.wavelengths)]
+    path = _tmpfile()
+    for name, base, obj in parts:
+        try:
+            want = canon_dict(json.loads(json.dumps(obj.to_dict())))
+            save_obj_to_json(obj, path)
+            got = canon_dict(json.loads(json.dumps(load_obj_from_json(base, path).to_dict())))
+            if got != want:
+                v.append({'stage': 'save_obj_to_json', 'site': 'part-file-roundtrip-differs',
+                          'detail': name + ': ' + str(first_diff(want, got, 'dict'))})
+                break
+        except Exception as e:   # noqa
+            v.append({'stage': 'save_obj_to_json', 'site': 'part-file-roundtrip-raises',
+                      'detail': f'{name}: {type(e).__name__}: {e}'[:160]})
+            break
     return v
 
 
